@@ -34,15 +34,33 @@ TRUSTED = ["Lean 4.33 kernel", "axioms: propext, Classical.choice, Quot.sound on
 TIMEOUT = {"quick": 150, "thorough": 1500}   # seconds per stream; a hang of the real code is a failure to terminate on a generated case
 
 
-class TStream:
-    """harness | tee keep | driver, with a timeout (vlib.Stream has none); same fields as vlib.Stream"""
+def cpu_seconds(pid):
+    try:
+        f = open("/proc/%d/stat" % pid).read().rsplit(")", 1)[1].split()
+        return (int(f[11]) + int(f[12])) / os.sysconf("SC_CLK_TCK")
+    except Exception:
+        return None
 
-    def __init__(self, chk, harness, driver, args, tag, timeout):
+
+def backtrace(pid):
+    try:
+        r = subprocess.run(["gdb", "-p", str(pid), "-batch", "-ex", "bt 40"], stdout=subprocess.PIPE, stderr=subprocess.DEVNULL, text=True, timeout=60)
+        return [l for l in r.stdout.splitlines() if l.startswith("#")][:40]
+    except Exception:
+        return []
+
+
+class TStream:
+    """harness | tee keep | driver, with a timeout (vlib.Stream has none); same fields as vlib.Stream.
+    A timeout counts as "the real code does not terminate" only if the harness was actually computing (CPU time >= half the
+    timeout); a harness that sat blocked (machine stalled, pipe not drained) is re-run once and reported in the evidence."""
+
+    def __init__(self, chk, harness, driver, args, tag, timeout, retry=True):
         self.args = [str(x) for x in args]
         self.harness = harness
         self.keep = os.path.join(vlib.BUILD, "streams", "%s-%s.txt" % (chk.prop, tag))
         os.makedirs(os.path.dirname(self.keep), exist_ok=True)
-        self.timed_out = False
+        self.timed_out, self.stalled_retry, self.diag = False, None, {}
         with tempfile.TemporaryFile() as errf:
             h = subprocess.Popen([harness] + self.args, stdout=subprocess.PIPE, stderr=errf)
             tee = subprocess.Popen(["tee", self.keep], stdin=h.stdout, stdout=subprocess.PIPE)
@@ -53,12 +71,22 @@ class TStream:
                 out, _ = d.communicate(timeout=timeout)
             except subprocess.TimeoutExpired:
                 self.timed_out = True
+                self.diag = {"harness_cpu_s": cpu_seconds(h.pid), "driver_cpu_s": cpu_seconds(d.pid), "timeout_s": timeout}
+                if h.poll() is None:
+                    self.diag["harness_backtrace"] = backtrace(h.pid)
                 h.kill()
                 out, _ = d.communicate()
             h.wait()
             tee.wait()
             errf.seek(0)
             self.herr = errf.read().decode(errors="replace")[-4000:]
+        if self.timed_out and retry and (self.diag.get("harness_cpu_s") or 0) < 0.5 * timeout:
+            chk.log("stream %s timed out with the harness idle (%s): re-running once" % (tag, self.diag))
+            again = TStream(chk, harness, driver, args, tag, timeout, retry=False)
+            first = self.diag
+            self.__dict__.update(again.__dict__)
+            self.stalled_retry = first
+            return
         self.lines = out.splitlines()
         self.hrc, self.drc = ("timeout" if self.timed_out else h.returncode), d.returncode
         self.diffs, self.fails, self.summary = vlib.parse_driver(self.lines)
@@ -195,6 +223,8 @@ def main():
                        "history_up_to_failure": ops[-400:], "implementation_graph_after_it": dump[:700],
                        "replay_cmd": "%s %s %s | %s" % (s.harness, " ".join(s.args), cid, driver)}, True, signature=sig)
     for tag, s in crashed:
+        if s.hrc == "timeout" and (s.diag.get("harness_cpu_s") or 0) < 0.5 * s.diag.get("timeout_s", 1):
+            continue   # twice timed out with an idle harness: says nothing about the code; reported below as "check could not run"
         if s.hrc != 0:
             # the real code crashed (sanitizer abort / signal / exit(1)) on a generated case: concrete failing input
             cid = last_case(s.keep)
@@ -205,7 +235,7 @@ def main():
             reported.add(sig)
             chk.violation("crash-" + tag, {"what": "the harness running the real code %s on a generated case" %
                                            ("was stopped by the sanitizer" if tag.startswith("asan") else "crashed"),
-                                           "first_report": first, "stderr_tail": s.herr, "harness_rc": s.hrc, "harness_args": s.args, "case": cid,
+                                           "first_report": first, "stderr_tail": s.herr, "harness_rc": s.hrc, "timeout_diagnostics": s.diag, "harness_args": s.args, "case": cid,
                                            "replay_cmd": "%s %s %s" % (s.harness, " ".join(s.args), cid)}, True, signature=sig)
     if not chk.violations and not chk.known_hits and broken:
         what = []
@@ -217,7 +247,8 @@ def main():
             what.append({"correspondence_broken": "C09 model/implementation correspondence (harness c09 | driver gv_c09)", "first_diff": dmsg[:4000],
                          "n_diffs": len(all_diffs), "harness_args": s.args, "case": vlib.case_of(dmsg)})
         for tag, s in crashed:
-            what.append({"stream_crashed": tag, "harness_rc": s.hrc, "driver_rc": s.drc, "stderr": s.herr, "driver_tail": s.lines[-5:]})
+            what.append({"stream_crashed": tag, "harness_rc": s.hrc, "driver_rc": s.drc, "stderr": s.herr, "driver_tail": s.lines[-5:],
+                         "timeout_diagnostics": s.diag})
         chk.violation("unproved", {"what": "a theorem or the model/implementation correspondence no longer checks; no failing input found by the search",
                                    "details": what}, False)
 
@@ -235,7 +266,7 @@ def main():
         "checker_cmd": "cd /verif/lean && lake build %s && lake env lean <#print axioms of every theorem in %s>" % (PROP_MODULE, PROP_FILE),
         "trusted_base": TRUSTED, "theorems_and_axioms": info["theorems"], "proof_stage_failures": proof_broken,
         "correspondence": {"streams": [{"tag": t, "args": s.args, "summary": s.summary, "diffs": len(s.diffs), "propfails": len(s.fails),
-                                        "harness_rc": s.hrc} for t, s in streams], "totals": total},
+                                        "harness_rc": s.hrc, "stalled_then_rerun": s.stalled_retry} for t, s in streams], "totals": total},
         "evaluations": int(total.get("dumps", 0) or 0),
         "distinct_nontrivial": int(total.get("ops", 0) or 0) - int(total.get("hist", {}).get("new", 0)) + int(total.get("dumps", 0) or 0) - int(total.get("ops", 0) or 0),
         "rule": "ops streams: random histories of 150..600 graph operations on <=28 live hlim nodes of 7 classes (every operation's full graph dump compared "
